@@ -304,6 +304,14 @@ func runProgram(r *ev.Run, id string, i int) {
 	}
 	r.SetAdd("core_enabler_kinds", enDesc[:3])
 	core := zapcore.NewCore(zapcore.NewJSONEncoder(encCfg), sink, coreEn)
+	// every second program also feeds a console core (message column only): its context object must be
+	// the same tree
+	var sinkC *rec.Sink
+	if i%2 == 1 {
+		sinkC = &rec.Sink{}
+		core = zapcore.NewTee(core, zapcore.NewCore(zapcore.NewConsoleEncoder(zapcore.EncoderConfig{MessageKey: "msg", EncodeTime: zapcore.EpochNanosTimeEncoder, EncodeDuration: zapcore.NanosDurationEncoder}), sinkC, coreEn))
+		r.Count("programs_with_console_core", 1)
+	}
 	name := rng.Pick(rr, []string{"", "svc", "a.b"})
 	root := &hnode{id: 0, h: zapslog.NewHandler(core, zapslog.WithName(name), zapslog.AddStacktraceAt(slog.Level(100))), parent: -1, how: "root"}
 	nodes := []*hnode{root}
@@ -380,6 +388,9 @@ func runProgram(r *ev.Run, id string, i int) {
 		viaLogger := rr.P(1, 4)
 		trace = append(trace, fmt.Sprintf("h%d.Handle(level=%d, %q, %s) viaLogger=%v", n.id, lvl, msg, descs(as), viaLogger))
 		sink.Reset()
+		if sinkC != nil {
+			sinkC.Reset()
+		}
 		if atom != nil && rr.P(1, 3) {
 			threshold = zapcore.Level(rr.Intn(5) - 1)
 			atom.SetLevel(threshold) // handlers built earlier must follow
@@ -469,6 +480,32 @@ func runProgram(r *ev.Run, id string, i int) {
 		exp.Members = append(exp.Members, body.Members...)
 		if err := ref.Compare(exp, v, repr, "$"); err != nil {
 			fail("slog-tree", "h%d (%s): entry differs from the slog contract's tree: %v; line=%s", n.id, n.how, err, ws[0])
+			return
+		}
+		if sinkC != nil {
+			cs := sinkC.Writes()
+			if len(cs) != 1 {
+				fail("slog-lost", "h%d: the console core received %d lines for one record", n.id, len(cs))
+				return
+			}
+			line := string(cs[0])
+			if !strings.HasPrefix(line, msg) || !strings.HasSuffix(line, "\n") {
+				fail("slog-tree", "h%d: console line %q does not start with the message", n.id, cs[0])
+				return
+			}
+			rest := strings.TrimSuffix(line[len(msg):], "\n")
+			if rest == "" {
+				rest = "\t{}"
+			}
+			cv, perr := jsonv.Parse([]byte(strings.TrimPrefix(rest, "\t")))
+			if perr != nil {
+				fail("slog-invalid", "h%d (%s): the console line's context is not valid JSON: %v: %q", n.id, n.how, perr, cs[0])
+				return
+			}
+			if err := ref.Compare(body, cv, repr, "$console"); err != nil {
+				fail("slog-tree", "h%d (%s): the console core's context differs from the slog contract's tree: %v; line=%q", n.id, n.how, err, cs[0])
+			}
+			r.Count("console_contexts_compared", 1)
 		}
 	}
 	steps := rr.Range(4, 30)
